@@ -1,4 +1,5 @@
 import CashewsVerif.Lemmas.RedisDegrade
+import CashewsVerif.Lemmas.RedisLock
 /-
 C19 — the Redis backend translates commands faithfully and degrades safely when the server is down.
 
@@ -153,6 +154,51 @@ theorem lock_excludes (cfg : Cfg) (hup : ∀ n, cfg.down n = false) (w : World)
   obtain ⟨c1, c2⟩ := b2 tok dl hheld (fun h => hne h.symm)
   refine ⟨by rw [a1, hp]; rfl, c1, by rw [c2]; exact hheld⟩
 
+/-- **A lock wait loop does not outlive the server** (`_BackendInterface.lock()`: `async with cache.lock(..)`, `@cache.locked`,
+`@cache(.., lock=True)`).  From ANY point of the loop — about to try the lock, about to ping after a failed attempt, or
+sleeping between two attempts, i.e. however many times the caller has already found the key held and the server alive —,
+whatever the holder, the other clients and the clock do in between (`env`: arbitrary on the server, it only moves the call
+counter forward), for either value of `wait`: once the server is unreachable (`down` from the current call on) the caller
+leaves the loop within ONE further iteration (three small steps: wake up, SET NX, PING).  With suppression on it runs its body
+unprotected (the safe client turns the failed SET NX into `False`, which looks like "held"; the liveness ping made after
+EVERY failed attempt raises and tells the difference); with suppression off the documented error escapes from `set_lock` —
+or, when the outage begins between a failed attempt and its ping, the ping's error is caught and the body runs. -/
+theorem lock_wait_terminates_when_down (cfg : Cfg) (k : String) (tok : Bytes) (ms : Nat) (wait : Bool)
+    (env : Nat → World → World) (henv : EnvOk env) (p : LPos) (w : World)
+    (hd : ∀ n, w.calls ≤ n → cfg.down n = true) (fuel : Nat) (hf : 3 ≤ fuel) :
+    (lockRun cfg k tok ms wait env fuel p w).2 = some (downOutcome cfg p) ∧
+    (cfg.suppress = true → downOutcome cfg p = .unprotected) ∧
+    (downOutcome cfg p = .unprotected ∨ (downOutcome cfg p = .raise ∧ cfg.suppress = false)) := by
+  refine ⟨lockRun_down cfg k tok ms wait env henv p w hd fuel hf, ?_, ?_⟩
+  · intro hs; cases p <;> simp [downOutcome, hs]
+  · cases p <;> cases hs : cfg.suppress <;> simp [downOutcome, hs]
+
+/-- **…and for every failure pattern** (`down : Nat → Bool` arbitrary: outages that begin and end anywhere), any `env`, any
+number of steps: nothing but the documented error ever escapes the loop, and that only with suppression off — with suppression
+on a caller of `lock()` acquires, runs unprotected, gets `LockedError` (`wait=False`) or is still waiting, never anything else. -/
+theorem lock_wait_degrades_safely (cfg : Cfg) (k : String) (tok : Bytes) (ms : Nat) (wait : Bool)
+    (env : Nat → World → World) (fuel : Nat) (p : LPos) (w : World) :
+    (lockRun cfg k tok ms wait env fuel p w).2 ≠ some .raiseOther ∧
+    ((lockRun cfg k tok ms wait env fuel p w).2 = some .raise → cfg.suppress = false) :=
+  lockRun_fine cfg k tok ms wait env fuel p w
+
+/-- **The transaction's lock wait loop is bounded** (`LockTransactionBackend._lock_updates`): it is `rounds = timeout / 0.1`
+attempts long by construction (`txLockRun` recurses on `rounds`; with nobody else acting it makes at most `rounds` client
+calls); for every failure pattern it ends in "acquired", `LockedError` or — suppression off only — the documented error; with
+the server unreachable from the current call on it ends in `LockedError` after the remaining rounds (suppression on: every
+SET NX answers `False`; there is no liveness ping in this loop) or raises the documented error at the next attempt
+(suppression off). -/
+theorem tx_lock_wait_bounded (cfg : Cfg) (k : String) (tok : Bytes) (ms : Nat) (env : Nat → World → World)
+    (rounds : Nat) (w : World) :
+    (txLockRun cfg k tok ms env rounds w).2 ≠ .raiseOther ∧
+    ((txLockRun cfg k tok ms env rounds w).2 = .raise → cfg.suppress = false) ∧
+    (txLockRun cfg k tok ms envId rounds w).1.calls ≤ w.calls + rounds ∧
+    (EnvOk env → (∀ n, w.calls ≤ n → cfg.down n = true) →
+      (txLockRun cfg k tok ms env rounds w).2 =
+        (if cfg.suppress then .lockedError else if rounds = 0 then .lockedError else .raise)) :=
+  ⟨(txLockRun_fine cfg k tok ms env rounds w).1, (txLockRun_fine cfg k tok ms env rounds w).2,
+   txLockRun_calls cfg k tok ms rounds w, fun henv hd => txLockRun_down cfg k tok ms env henv rounds w hd⟩
+
 /-! ### Non-vacuity -/
 
 /-- a configuration with the connection always up, suppression on, every payload decodable -/
@@ -188,5 +234,48 @@ example : (run cfgDownFrom3 World.init sampleHist).2 =
 example :
     (run cfgUp World.init [.setLock "L" (.blob "aa") 500]).1.srv.ks.find "L" = some ⟨.str (.blob "aa"), some 500⟩ ∧
     (run cfgUp World.init [.setLock "L" (.blob "aa") 500]).1.cached = [] := by decide +kernel
+
+/-- the world of a waiter: somebody holds `L` (one client call made so far) -/
+def heldWorld (cfg : Cfg) : World := (run cfg World.init [.setLock "L" (.blob "aa") 8000]).1
+
+/-- the connection goes down at client call `n` and stays down -/
+def cfgDownFrom (n : Nat) (suppress : Bool) : Cfg := { suppress := suppress, down := fun m => decide (n ≤ m), isEnc := fun _ => true }
+
+example : EnvOk envId := fun _ _ => Nat.le_refl _
+example : ∀ m, (heldWorld (cfgDownFrom 6 true)).calls + 5 ≤ m → (cfgDownFrom 6 true).down m = true := by
+  intro m h; have : (heldWorld (cfgDownFrom 6 true)).calls = 1 := by decide +kernel
+  simp [cfgDownFrom]; omega
+
+/-- the loop really loops: server up, key held, `wait=True` — after 30 steps (10 iterations: SET NX, PING, sleep) the waiter is
+still inside, having made 20 client calls; with `wait=False` it gets LockedError after one SET NX and one PING; when the key
+is free it acquires -/
+example :
+    (lockRun cfgUp "L" (.blob "bb") 1000 true envId 30 .atSetLock (heldWorld cfgUp)).2 = none ∧
+    (lockRun cfgUp "L" (.blob "bb") 1000 true envId 30 .atSetLock (heldWorld cfgUp)).1.calls = 21 ∧
+    (lockRun cfgUp "L" (.blob "bb") 1000 false envId 30 .atSetLock (heldWorld cfgUp)).2 = some .lockedError ∧
+    (lockRun cfgUp "M" (.blob "bb") 1000 true envId 30 .atSetLock (heldWorld cfgUp)).2 = some .acquired := by decide +kernel
+
+/-- the outage begins while the waiter is in its third turn (the holder made call 0; client call 5 = the waiter's third
+SET NX, call 6 = its third PING): suppression on → unprotected after that turn's SET NX and PING (7 calls in all) whichever
+of the two the outage begins at; suppression off → the documented error from the SET NX, or — outage beginning at the PING —
+unprotected -/
+example :
+    (lockRun (cfgDownFrom 5 true) "L" (.blob "bb") 1000 true envId 30 .atSetLock (heldWorld (cfgDownFrom 5 true))).2 = some .unprotected ∧
+    (lockRun (cfgDownFrom 5 true) "L" (.blob "bb") 1000 true envId 30 .atSetLock (heldWorld (cfgDownFrom 5 true))).1.calls = 7 ∧
+    (lockRun (cfgDownFrom 6 true) "L" (.blob "bb") 1000 true envId 30 .atSetLock (heldWorld (cfgDownFrom 6 true))).2 = some .unprotected ∧
+    (lockRun (cfgDownFrom 6 true) "L" (.blob "bb") 1000 true envId 30 .atSetLock (heldWorld (cfgDownFrom 6 true))).1.calls = 7 ∧
+    (lockRun (cfgDownFrom 5 false) "L" (.blob "bb") 1000 true envId 30 .atSetLock (heldWorld (cfgDownFrom 5 false))).2 = some .raise ∧
+    (lockRun (cfgDownFrom 6 false) "L" (.blob "bb") 1000 true envId 30 .atSetLock (heldWorld (cfgDownFrom 6 false))).2 = some .unprotected := by
+  decide +kernel
+
+/-- the transaction's loop: key held and server up → LockedError after the 10 rounds (10 calls); server down from the waiter's
+fourth attempt → LockedError all the same (suppression on), the documented error at that attempt (suppression off) -/
+example :
+    (txLockRun cfgUp "L" (.blob "bb") 1000 envId 10 (heldWorld cfgUp)).2 = .lockedError ∧
+    (txLockRun cfgUp "L" (.blob "bb") 1000 envId 10 (heldWorld cfgUp)).1.calls = 11 ∧
+    (txLockRun (cfgDownFrom 4 true) "L" (.blob "bb") 1000 envId 10 (heldWorld (cfgDownFrom 4 true))).2 = .lockedError ∧
+    (txLockRun (cfgDownFrom 4 false) "L" (.blob "bb") 1000 envId 10 (heldWorld (cfgDownFrom 4 false))).2 = .raise ∧
+    (txLockRun (cfgDownFrom 4 false) "L" (.blob "bb") 1000 envId 10 (heldWorld (cfgDownFrom 4 false))).1.calls = 5 ∧
+    (txLockRun cfgUp "M" (.blob "bb") 1000 envId 10 (heldWorld cfgUp)).2 = .acquired := by decide +kernel
 
 end CashewsVerif.Props.C19
